@@ -23,6 +23,9 @@ pub struct World {
     /// root-relative .do path -> rule
     pub rules: BTreeMap<String, Rule>,
     pub dirs: BTreeSet<String>,
+    /// how often the user has (re)written each path in the history so far:
+    /// a rewrite with identical bytes still changes the file's stamp
+    pub touch: BTreeMap<String, u64>,
 }
 
 #[derive(Clone, Debug, PartialEq, Eq)]
